@@ -54,7 +54,8 @@ def _devsets(open_devs):
 
 def _stored(case):
     return dict(rendered=dict(objs=case["objs"], refs=case["refs"], files=case["files"],
-                              texts={str(k): v for k, v in case["texts"].items()}, matches=[]))
+                              texts={str(k): v for k, v in case["texts"].items()}, matches=[]),
+                user=bool(case.get("user")))
 
 
 def _restore(c):
@@ -132,6 +133,11 @@ def run(rep):
         "test_textx_tools_support requires and lists a span before every different span containing it",
         "entries are compared as (start, end, definition file base name, definition span); the name field is not judged",
         "no object processors are registered in this check",
+        "in every other scenario definitions (DefA and DefB objects, i.e. of two classes) may share names: the same "
+        "reference text then means different targets and the scenario says which one the provider answers",
+        "a quarter to a third of the loads use user classes for Pkg, DefA and Use; the DefA class is container-like "
+        "(__len__ = number of extended definitions), so a referenced DefA that extends nothing is a falsy object. "
+        "User classes are not named in the property's quantifier; they only vary what a resolved target looks like",
     ]
     scns = _mc(rep, 4, 2, 1) if quick else _mc(rep, 4, 3, 2)
     scns = [s for s in scns if len(s["objs"]) >= 2]
@@ -153,16 +159,19 @@ def run(rep):
     work = tlc.scratch("vt-c34-")
     batch = []
     try:
-        for s in scns:
-            case = D.render(s, rng)
-            case["procs"], case["repl"] = [], []
-            batch.append((case, D.load(case, work, tools=True)))
+        for k, s in enumerate(scns):
+            # every other scenario: definitions (of both classes) may share names, so that equal
+            # reference texts mean different targets; every fourth: user classes, whose DefA objects
+            # are container-like and falsy when they extend nothing
+            case = D.render(s, rng, collide=0.6 if k % 2 else 0.0)
+            case["procs"], case["repl"], case["user"] = [], [], k % 4 == 0
+            batch.append((case, D.load(case, work, tools=True, user=case["user"])))
         for k in range(nrand):
             s = D.random_scenario(rng, max_objs=rng.randint(4, 14), nfiles=rng.choice([1, 2, 2, 3]),
                                   max_postpone=rng.choice([0, 1, 2, 3]))
-            case = D.render(s, rng)
-            case["procs"], case["repl"] = [], []
-            batch.append((case, D.load(case, work, tools=True, user=bool(k % 3 == 0))))
+            case = D.render(s, rng, collide=0.5 if k % 2 else 0.0)
+            case["procs"], case["repl"], case["user"] = [], [], k % 3 == 0
+            batch.append((case, D.load(case, work, tools=True, user=case["user"])))
     finally:
         shutil.rmtree(work, ignore_errors=True)
     _run_batch(rep, batch, open_devs, fid_of)
@@ -175,7 +184,7 @@ def replay(path):
     case = _restore(c)
     work = tlc.scratch("vt-c34-")
     try:
-        obs = D.load(case, work, tools=True)
+        obs = D.load(case, work, tools=True, user=bool(c.get("user")))
     finally:
         shutil.rmtree(work, ignore_errors=True)
     open_devs = sorted({f["deviation"] for f in common.open_findings(PID)})
